@@ -5,6 +5,8 @@ open Dcg.Driver Dcg.Proofs.PatternLit Dcg.Proofs.Escape
 
 /-- `patlit.text <pattern> b<bits>`: the text `pattern_literal` writes (bits = `str.isprintable` per
 character, supplied by the harness as for `repr.str`).
+`patlit.cpython <pattern>`: the same with the generated table `cpythonPrintable` as the predicate
+(nothing supplied by the harness: rule AND table are compared with the real function).
 `patlit.token <text>`: the ONE string-literal token (optional `r` prefix) the lexer model reads at
 the head of `text`: `ok <value> <rest>` or `none`.
 `patlit.rawsafe <q> <pattern>`: is `r q pattern q` an exact literal (`q` = `s` single / `d` double quote). -/
@@ -15,6 +17,12 @@ def handlers : List (String × Handler) := [
         let bs := (bits.toList.drop 1).map (· == '1')
         let printable := (cs.zip bs).filterMap (fun p => if p.2 then some p.1 else none)
         "ok " ++ encodeStr (patternLiteral (fun c => printable.contains c) cs)
+      | none => "err args"
+    | _ => "err args"),
+  ("patlit.cpython", fun
+    | [s] => match s.str? with
+      | some cs => "ok " ++ encodeStr (patternLiteral cpythonPrintable cs) ++ " " ++
+          toString (patternRawOK cpythonPrintable cs)
       | none => "err args"
     | _ => "err args"),
   ("patlit.token", fun
